@@ -55,7 +55,9 @@ def merged(blocks):
     return out
 
 
-def _gen(rnd):
+def _gen(rnd, mutate=None):
+    """mutate: a Random of its own -- the SAME annotation (every draw from rnd is repeated) on a sequence that differs in a
+    few bases (another strain / a corrected assembly of the same chromosome)"""
     from inscripta.biocantor.gene.biotype import Biotype
     from inscripta.biocantor.gene.collections import AnnotationCollection
     from inscripta.biocantor.gene.gene import GeneInterval
@@ -75,6 +77,12 @@ def _gen(rnd):
             a0 = rnd.randrange(0, L)
             for i in range(a0, min(L, a0 + rnd.randrange(1, 25))):
                 chars[i] = chars[i].lower()
+        R = "".join(chars)
+    if mutate is not None:
+        chars = list(R)
+        for _ in range(mutate.randrange(3, 12)):
+            i = mutate.randrange(0, L - 2)
+            chars[i:i + 3] = list(mutate.choice(["TAA", "TGA", "CAA", "GCC", "ATG", "CTC"]))
         R = "".join(chars)
     par = Parent(id="seqT", sequence=Sequence(R, Alphabet.NT_EXTENDED_GAPPED, id="seqT", type=SequenceType.CHROMOSOME))
     genes, model = [], []
@@ -125,11 +133,21 @@ def _events(args):
 
     rnd = random.Random(seed)
     ev = []
+    cases = []
     for _ in range(n):
+        state = rnd.getstate()
         b = _gen(rnd)
         if not b:
             continue
-        coll, model, R = b
+        cases.append(b)
+        if rnd.random() < 0.35:
+            # the same annotation exported again, in the same process, for a sequence that differs in a few bases
+            r2 = random.Random()
+            r2.setstate(state)
+            b2 = _gen(r2, mutate=random.Random(seed * 7 + len(cases)))
+            if b2:
+                cases.append(b2)
+    for (coll, model, R) in cases:
         for flavour in ("EUKARYOTIC", "PROKARYOTIC"):
             table = rnd.choice([0, 1, 11])
             step = rnd.choice([1, 5, 10])
